@@ -129,8 +129,7 @@ def execute(plan, out, log):
                 sol_b = run_leg(Bm, spec_for(plan, dt, N - k), sim)
                 qN, uN = np.array(sol_b.q[-1]), np.array(sol_b.u[-1])
                 # map the state of the rebuilt system back to the original ordering (same plan, same order)
-                seg = tracked_angles(Bm, sol_b, len(sol_b.t) - 1)
-                ang = {j: st["angle0"][j] + (seg[j] - scene["joints"][j].get("angle0", 0.0)) for j in seg}
+                ang = tracked_angles(Bm, sol_b, len(sol_b.t) - 1, base=st["angle0"])
                 out["probes"]["restart_interleaved"] += 1
                 out["faults"]["F3_crash_restart"] += 1
                 Bfwd = Bm
